@@ -56,13 +56,20 @@ LIMIT_S = 3.0
 
 def guarded(sub, model, hist, op, fn):
     '''Run fn() under the per-execution time limit; a hang is a violation.'''
+    limit = getattr(model, 'limit_s', LIMIT_S)
     try:
-        with core.time_limit(getattr(model, 'limit_s', LIMIT_S)):
-            return True, fn()
+        try:
+            with core.time_limit(limit):
+                return True, fn()
+        except core.Timeout:
+            # a loaded machine can exceed the first limit; only a repeated timeout with a 10x limit counts
+            sub.count('timeouts_first')
+            with core.time_limit(limit * 10):
+                return True, fn()
     except core.Timeout:
         sub.violation('%s:hang' % sub.prop.lower(), model.case(hist, op),
                       'execution did not finish within %.0f s: history %r, operation %r' %
-                      (getattr(model, 'limit_s', LIMIT_S), hist, op))
+                      (limit * 10, hist, op))
         return False, None
     except MemoryError:
         sub.violation('%s:memory' % sub.prop.lower(), model.case(hist, op),
